@@ -24,6 +24,7 @@ from c04 import DATES
 from common import Check, pool_map
 
 LEVEL = "exploration"
+NWIT = 8   # deterministic witness jobs: one per regime date (gs.regime_dates) + 2023-01-01 and 2015-01-01
 GROUPS = ["hh", "wthh", "fg", "bg", "eg", "ehe", "sn"]
 
 
@@ -49,7 +50,7 @@ def job(j):
     kinds = ["family_3", "patchwork", "self_sufficient_child", "three_gen", "couple_unmarried", "couple_married", "spouses_apart", "single_parent_2", "family_2", "adult_child", "stepchild"]
     structs = [popgen.CANON[rnd.choice(kinds)] for _ in range(rnd.choice([2, 3]))]
     prof = None
-    if tid < 2:
+    if tid < NWIT:
         # deterministic witnesses: members of every unit alternate in the individual-level flags that the known
         # findings hinge on, so that those findings are observed on every run
         structs = [popgen.CANON["family_2"], popgen.CANON["couple_unmarried"], popgen.CANON["single_parent_2"]]
@@ -117,7 +118,12 @@ def run(tier):
     quick = tier == "quick"
     dates = ["2023-01-01", "2024-01-01"] + rnd.sample([d for d in DATES if d not in ("2023-01-01", "2024-01-01")], 2 if quick else len(DATES) - 2)
     njobs = 16 if quick else 300
-    outs = pool_map(job, sorted([(("2023-01-01" if t == 0 else "2015-01-01" if t == 1 else dates[t % len(dates)]), rnd.randrange(1 << 30), t, str(chk.work)) for t in range(njobs)]))
+    # every dated version of every rule is in force on one of the regime dates: a rule version that only exists in part of the
+    # supported window (from 2009, when the default target set becomes computable) is exercised by a deterministic witness
+    wit = (["2023-01-01", "2015-01-01"] + list(gs.regime_dates()))[:NWIT]
+    njobs = max(njobs, len(wit) + 10)
+    outs = pool_map(job, sorted([((wit[t] if t < len(wit) else dates[t % len(dates)]), rnd.randrange(1 << 30), t, str(chk.work)) for t in range(njobs)]))
+    chk.notes["witness_dates"] = wit
     cands = set()
     seen = set()
     for info in outs:
